@@ -491,7 +491,15 @@ func (x *Exec) symbolic(st *State, t types.Type, name string) Value {
 		return VScalar{v}
 	case *types.Pointer:
 		nilT := x.sym.Named(name+".isnil", SBool)
-		obj := x.alloc(st, VLazy{Typ: u.Elem(), Name: name})
+		// the pointee of a pointer to something that has a nil flag of its own (a pointer to a pointer: the
+		// cell of a captured variable) gets a name of its own: under the same name the two nil flags would
+		// be one symbol, and a non-nil cell would make its content non-nil
+		pname := name
+		switch u.Elem().Underlying().(type) {
+		case *types.Pointer, *types.Slice, *types.Map, *types.Interface, *types.Chan:
+			pname = name + ".val"
+		}
+		obj := x.alloc(st, VLazy{Typ: u.Elem(), Name: pname})
 		if x.symObjs == nil {
 			x.symObjs = map[int]bool{}
 		}
